@@ -405,6 +405,16 @@ class Check:
         if self.level == 'translation_validation':
             cov.setdefault('programs', len(self.distinct))
             cov.setdefault('disagreements_checked', len(self.violations) + len(self.known_hits))
+        if not self.assumptions:
+            try:
+                with open(os.path.join(VERIF, 'harness', 'props', self.pid.lower() + '.meta.json')) as f:
+                    self.assumptions = [json.load(f).get('level_note', '')]
+            except OSError:
+                pass
+        nthm = sum(1 for o in self.obligations if o['kind'] == 'theorem')
+        nclosed = sum(1 for o in self.obligations if o['kind'] == 'theorem' and 'closed under the global context' in o['detail'])
+        cov['trusted_base'].append('Print Assumptions: %d of %d property theorems closed under the global context; the others list exactly: %s'
+                                   % (nclosed, nthm, '; '.join(self.trusted) if self.trusted else 'n/a'))
         ev = {'property_id': self.pid, 'tier': self.tier, 'seed': self.seed, 'level': self.level,
               'coverage': cov, 'assumptions': self.assumptions, 'wall_s': round(wall, 2),
               'violations': len(self.violations)}
